@@ -15,6 +15,7 @@ print('compiled %.2fs, parsed %.2fs, %d funcs' % (ct, time.time() - t0 - ct, len
 m = Machine(mod, nthreads=1, unwind=U, verbose=True)
 from xsym import z3b
 m.pruner = z3b.Pruner() if "--prune" in sys.argv else None
+if m.pruner: m.prune_iter = True; m.do_restrict = True
 for a in sys.argv[2:]:
     if a.startswith('--symcap='): m.sym_loop_cap = int(a.split('=')[1])
     if a.startswith('--maxrec='): m.max_recursion = int(a.split('=')[1])
